@@ -474,10 +474,10 @@ type rawLine struct {
 var clauseKeywords = map[string]bool{
 	"requires": true, "ensures": true, "assigns": true, "tags": true, "loop": true, "invariant": true,
 	"decreases": true, "ghost": true, "pure": true, "panics": true, "nosafety": true, "doc": true, "use": true, "by": true,
-	"assert": true, "unroll": true, "trigger": true, "establishes": true, "split": true, "implements": true,
+	"assert": true, "unroll": true, "trigger": true, "establishes": true, "split": true, "implements": true, "defines": true, "generalizing": true, "hint": true, "measure": true,
 }
 
-var topKeywords = map[string]bool{"macro": true, "func": true, "trusted": true, "spec": true, "axiom": true, "lemma": true, "ghostfield": true, "sentinel": true, "immutable": true, "consttable": true, "globalinv": true, "onlycalledfrom": true, "constfield": true}
+var topKeywords = map[string]bool{"macro": true, "func": true, "trusted": true, "spec": true, "axiom": true, "lemma": true, "ghostfield": true, "sentinel": true, "immutable": true, "consttable": true, "globalinv": true, "onlycalledfrom": true, "constfield": true, "typeinv": true}
 
 // ParseFile reads all //@ lines of a file.
 func ParseFile(path string) (*File, error) {
@@ -611,6 +611,22 @@ func Parse(path, src string) (*File, error) {
 				f.Immutable = append(f.Immutable, strings.TrimSpace(s))
 			}
 			cur = nil
+		case "typeinv":
+			// typeinv *chain c by newChain: expr
+			i := strings.Index(rest, ":")
+			if i < 0 {
+				return nil, fail(l, fmt.Errorf("typeinv <type> <var> by <ctor>: expr"))
+			}
+			hd := strings.Fields(rest[:i])
+			if len(hd) != 4 || hd[2] != "by" {
+				return nil, fail(l, fmt.Errorf("typeinv <type> <var> by <ctor>: expr"))
+			}
+			e, err := ParseExpr(rest[i+1:])
+			if err != nil {
+				return nil, fail(l, err)
+			}
+			f.TypeInvs = append(f.TypeInvs, &TypeInv{Type: hd[0], Var: hd[1], Ctor: hd[3], E: e, Text: strings.TrimSpace(rest[i+1:]), File: path, Line: l.line})
+			cur, curLoop, curLemma, curAxiom = nil, nil, nil, nil
 		case "constfield":
 			f.ConstFields = append(f.ConstFields, splitList(rest)...)
 			cur = nil
@@ -653,6 +669,32 @@ func Parse(path, src string) (*File, error) {
 			} else {
 				return nil, fail(l, fmt.Errorf("tags outside func/lemma"))
 			}
+		case "measure":
+			if curLemma == nil {
+				return nil, fail(l, fmt.Errorf("measure outside lemma"))
+			}
+			e, err := ParseExpr(rest)
+			if err != nil {
+				return nil, fail(l, err)
+			}
+			curLemma.Measure = e
+			curLemma.Induct = "n!measure"
+			curLemma.Lo = &IntLit{"0"}
+			curLemma.Hi = &IntLit{"1000000000000000000000000000000"}
+		case "generalizing":
+			if curLemma == nil {
+				return nil, fail(l, fmt.Errorf("generalizing outside lemma"))
+			}
+			curLemma.Generalizing = append(curLemma.Generalizing, splitList(rest)...)
+		case "hint":
+			if curLemma == nil {
+				return nil, fail(l, fmt.Errorf("hint outside lemma"))
+			}
+			e, err := ParseExpr(rest)
+			if err != nil {
+				return nil, fail(l, err)
+			}
+			curLemma.Hints = append(curLemma.Hints, e)
 		case "trigger":
 			if curLemma == nil {
 				return nil, fail(l, fmt.Errorf("trigger outside lemma"))
@@ -740,6 +782,12 @@ func Parse(path, src string) (*File, error) {
 					cur.Assigns = append(cur.Assigns, es...)
 					cur.HasAssigns = true
 				}
+			case first == "defines":
+				c, err := mkClause(rest)
+				if err != nil {
+					return nil, fail(l, err)
+				}
+				cur.Defines = append(cur.Defines, c)
 			case first == "implements":
 				cur.Implements = append(cur.Implements, splitList(rest)...)
 			case first == "split":
